@@ -137,6 +137,16 @@ def check_c07(r, ex, stats):
             stats["discard-nonfinite"] += 1  # NaN state: `time >= tottime` never holds; outside the property
         return out
 
+    if r.outcome == "raised" and r.exc_injected:
+        # interrupted call: the counter still equals the number of full steps committed
+        ncommitted = len(tr.full_steps())
+        stats["T6-crash"] += 1
+        if r.nit != ncommitted:
+            bad("T6", "after an interrupted call nit()=%d but %d full steps were committed" % (r.nit, ncommitted),
+                cls + "/crash-count")
+        if r.totnit != r.itstart + r.nit:
+            bad("T6", "after an interrupted call totnit()=%d, expected %d + %d" % (r.totnit, r.itstart, r.nit),
+                cls + "/crash-count")
     if r.outcome == "raised":
         if not r.exc_injected:
             if r.model_failed and isinstance(r.exc, np.linalg.LinAlgError):
